@@ -690,7 +690,20 @@ func (in *Interp) load(p Value, t types.Type) Value {
 				}
 				v = a.E[i]
 			case *Sym:
-				return &Sym{Expr: fmt.Sprintf("%s.%d", a.Name(), i), T: t}
+				name := fmt.Sprint(i)
+				var ft types.Type
+				if a.T != nil {
+					if st, ok := a.T.Underlying().(*types.Struct); ok && i < st.NumFields() {
+						name = st.Field(i).Name()
+						ft = st.Field(i).Type()
+					}
+				}
+				addr := a.Name() + "." + name
+				if mv, ok := in.symMem[addr]; ok {
+					v = mv
+					continue
+				}
+				v = &Sym{Expr: addr, T: ft}
 			default:
 				in.Undecided("load through %T", v)
 			}
